@@ -793,7 +793,11 @@ impl CompilerContext<'_> {
                 .map_err(|e| emitter.emit(e))
         }).collect_with_recovery::<()>()?;
 
-        mapfile.enums.iter().map(|(enum_name, enum_pairs)| {
+        // (`mapfile.enums` is a hash map; go through it in a fixed order so that definitions, diagnostics
+        //  and debug info do not depend on the hash seed)
+        let mut mapfile_enums = mapfile.enums.iter().collect::<Vec<_>>();
+        mapfile_enums.sort_by(|a, b| (a.0.span, a.0.value.to_string()).cmp(&(b.0.span, b.0.value.to_string())));
+        mapfile_enums.into_iter().map(|(enum_name, enum_pairs)| {
             self.declare_enum(enum_name.clone(), ScalarType::Int).map_err(|e| self.emitter.emit(e))?;
             for &(value, ref const_name) in enum_pairs {
                 let value = sp!(const_name.span => value.into()); // FIXME remind me why the indices don't have spans again?
